@@ -25,7 +25,7 @@ ASSUMPTIONS = ["index arguments are in range and non-negative (numpy's negative-
 
 # ------------------------------------------------------------------ implementation runners
 def mk(pos, edges, crossing):
-    return Lattice(pos.copy(), edges.copy(), crossing.copy())
+    return Lattice(*layout_variant(pos, edges, crossing)[:3])
 
 
 def arr(lat):
